@@ -244,3 +244,6 @@ extend("C10", "placement of the merged tail: accumulator/frontier lockstep over 
        "The part of a fragment beyond the merged prefix is written at the frontier: appended to an accumulator that starts empty and moves in lockstep with the frontier on every loop edge, or copied to accumulator[frontier:].")
 extend("C17", "code-table agreement by concrete evaluation of IsValid() on every value of the one-byte range against the declared constants",
        "For every one-byte code type with IsValid(), the method (evaluated on constants through its String() or switch table) accepts exactly the declared constants: a code the node can write is a code it can read, and no undeclared value is accepted.")
+# round h of seeding
+extend("C18", "guard freshness: the 'at least two copies' test must be evaluated after the last budget store that can precede a selection (path rule over the CFG)",
+       "The test 'remaining copies >= 2' in force at a selection is one that no budget update can follow on the way to that selection: a test in front of the peer loop does not cover the second peer of a round.")
